@@ -7,6 +7,8 @@ import (
 	"crypto/ed25519"
 	"encoding/binary"
 	"fmt"
+	"math/rand"
+	"sync"
 	"time"
 
 	"go.brendoncarroll.net/exp/crypto/sign/sig_ed25519"
@@ -50,7 +52,7 @@ type Cluster struct {
 }
 
 // Kinds lists every stack kind NewCluster can build.
-var Kinds = []string{"mem", "udp", "frag/mem64", "mbapp/mem128", "strmux/mem", "u16mux/mem", "u32mux/mem", "u64mux/mem", "varmux/mem",
+var Kinds = []string{"mem", "udp", "frag/mem64", "frag/dup/mem64", "mbapp/dup/mem128", "p2pke/dup/mem", "mbapp/mem128", "strmux/mem", "u16mux/mem", "u32mux/mem", "u64mux/mem", "varmux/mem",
 	"multi/mem", "map/mem", "p2pke/mem", "p2pke/udp", "wl/p2pke/mem", "frag/p2pke/mem", "mbapp/p2pke/mem", "strmux/mbapp/mem128",
 	"quic/mem", "ssh"}
 
@@ -143,6 +145,56 @@ func closeAll(fs ...func() error) func() {
 	}
 }
 
+// dupSwarm is a harness-owned faulty transport: it duplicates packets and delivers a held-back copy
+// after later packets (duplication + reordering), as an unreliable network may.
+type dupSwarm[A p2p.Addr] struct {
+	p2p.Swarm[A]
+	mu   sync.Mutex
+	rng  *rand.Rand
+	held []heldPacket[A]
+}
+
+type heldPacket[A p2p.Addr] struct {
+	dst  A
+	data []byte
+}
+
+func newDup[A p2p.Addr](x p2p.Swarm[A], seed int64) *dupSwarm[A] {
+	return &dupSwarm[A]{Swarm: x, rng: rand.New(rand.NewSource(seed))}
+}
+
+func (d *dupSwarm[A]) Tell(ctx context.Context, dst A, v p2p.IOVec) error {
+	data := p2p.VecBytes(nil, v)
+	d.mu.Lock()
+	r := d.rng.Intn(100)
+	var release []heldPacket[A]
+	if len(d.held) > 0 && d.rng.Intn(3) == 0 {
+		release, d.held = d.held, nil
+	}
+	if r < 25 {
+		d.held = append(d.held, heldPacket[A]{dst, append([]byte{}, data...)}) // a copy arrives later
+	}
+	d.mu.Unlock()
+	if r >= 25 && r < 40 {
+		d.Swarm.Tell(ctx, dst, p2p.IOVec{data}) // an immediate duplicate
+	}
+	err := d.Swarm.Tell(ctx, dst, p2p.IOVec{data})
+	for _, h := range release {
+		d.Swarm.Tell(ctx, h.dst, p2p.IOVec{h.data})
+	}
+	return err
+}
+
+type dupSecure[A p2p.Addr, Pub any] struct {
+	*dupSwarm[A]
+	sec p2p.SecureSwarm[A, Pub]
+}
+
+func (d dupSecure[A, Pub]) PublicKey() Pub { return d.sec.PublicKey() }
+func (d dupSecure[A, Pub]) LookupPublicKey(ctx context.Context, a A) (Pub, error) {
+	return d.sec.LookupPublicKey(ctx, a)
+}
+
 type mapAddr struct{ memswarm.Addr }
 
 func (a mapAddr) MarshalText() ([]byte, error) {
@@ -172,11 +224,32 @@ func NewCluster(kind string, n int) (*Cluster, error) {
 			sws = append(sws, s)
 		}
 		return fromSwarms(kind, sws, nil, func() {}), nil
-	case "frag/mem64":
-		r := memswarm.NewRealm(memswarm.WithQueueLen(256), memswarm.WithMTU(64))
+	case "frag/mem64", "frag/dup/mem64":
+		r := memswarm.NewRealm(memswarm.WithQueueLen(1024), memswarm.WithMTU(64))
 		var sws []p2p.Swarm[M]
 		for i := 0; i < n; i++ {
-			sws = append(sws, fragswarm.New[M](r.NewSwarm(), 4096))
+			var in p2p.Swarm[M] = r.NewSwarm()
+			if kind == "frag/dup/mem64" {
+				in = newDup[M](in, int64(1000+i))
+			}
+			sws = append(sws, fragswarm.New[M](in, 4096))
+		}
+		return fromSwarms(kind, sws, nil, func() {}), nil
+	case "mbapp/dup/mem128":
+		r := memswarm.NewSecureRealm[struct{}](memswarm.WithQueueLen(1024), memswarm.WithMTU(128))
+		var sws []p2p.Swarm[M]
+		for i := 0; i < n; i++ {
+			in := r.NewSwarm(struct{}{})
+			ds := dupSecure[M, struct{}]{newDup[M](in, int64(2000+i)), in}
+			sws = append(sws, p2p.Swarm[M](mbapp.New[M, struct{}](ds, 1<<14)))
+		}
+		return fromSwarms(kind, sws, nil, func() {}), nil
+	case "p2pke/dup/mem":
+		r := memswarm.NewRealm(memswarm.WithQueueLen(1024), memswarm.WithMTU(1<<12))
+		type PA = p2pkeswarm.Addr[M]
+		var sws []p2p.Swarm[PA]
+		for i := 0; i < n; i++ {
+			sws = append(sws, p2p.Swarm[PA](p2pkeswarm.New[M](newDup[M](r.NewSwarm(), int64(3000+i)), X509Key(100+i))))
 		}
 		return fromSwarms(kind, sws, nil, func() {}), nil
 	case "mbapp/mem128", "strmux/mbapp/mem128":
